@@ -18,6 +18,7 @@ class Proxy:
         """fac: serve another viewer with the SAME factory (the proxy accepts any number of viewers); outdir: `vnclog --forever DIR`,
         one script file per connection (then self.rec stays empty: read the files)"""
         self.rec = []
+        self.fail_after = None
         self.set_time(t0_ticks)
         if fac is None:
             fac = lp.VNCLoggingServerFactory("h", 1)
@@ -26,6 +27,8 @@ class Proxy:
 
             class Out:
                 def write(self, s):
+                    if outer.fail_after is not None and len(outer.rec) >= outer.fail_after:
+                        raise OSError(28, "No space left on device")       # the script's medium fails in mid-session
                     outer.rec.append(s)
             fac.output = outdir if outdir is not None else Out()
         self.fac = fac
